@@ -6,7 +6,6 @@
 #[cfg(target_arch = "x86_64")]
 #[target_feature(enable = "avx2")]
 pub unsafe fn znx_mul_power_of_two_avx(k: i64, res: &mut [i64], a: &[i64]) {
-    #[cfg(debug_assertions)]
     {
         assert_eq!(res.len(), a.len());
     }
@@ -37,9 +36,8 @@ pub unsafe fn znx_mul_power_of_two_avx(k: i64, res: &mut [i64], a: &[i64]) {
 
         if k > 0 {
             // Left shift by k (variable count).
-            #[cfg(debug_assertions)]
             {
-                debug_assert!(k <= 63);
+                assert!(k <= 63);
             }
             let cnt128: __m128i = _mm_cvtsi32_si128(k as i32);
             for _ in 0..span {
@@ -136,9 +134,8 @@ pub unsafe fn znx_mul_power_of_two_assign_avx(k: i64, res: &mut [i64]) {
 
         if k > 0 {
             // Left shift by k (variable count).
-            #[cfg(debug_assertions)]
             {
-                debug_assert!(k <= 63);
+                assert!(k <= 63);
             }
             let cnt128: __m128i = _mm_cvtsi32_si128(k as i32);
             for _ in 0..span {
@@ -208,7 +205,6 @@ pub unsafe fn znx_mul_power_of_two_assign_avx(k: i64, res: &mut [i64]) {
 #[cfg(target_arch = "x86_64")]
 #[target_feature(enable = "avx2")]
 pub unsafe fn znx_mul_add_power_of_two_avx(k: i64, res: &mut [i64], a: &[i64]) {
-    #[cfg(debug_assertions)]
     {
         assert_eq!(res.len(), a.len());
     }
@@ -240,9 +236,8 @@ pub unsafe fn znx_mul_add_power_of_two_avx(k: i64, res: &mut [i64], a: &[i64]) {
 
         if k > 0 {
             // Left shift by k (variable count).
-            #[cfg(debug_assertions)]
             {
-                debug_assert!(k <= 63);
+                assert!(k <= 63);
             }
             let cnt128: __m128i = _mm_cvtsi32_si128(k as i32);
             for _ in 0..span {
